@@ -6,6 +6,7 @@ import (
 	"fmt"
 	"os"
 	"path/filepath"
+	"regexp"
 	"strings"
 
 	"github.com/evanw/esbuild/pkg/api"
@@ -248,6 +249,12 @@ func c04Run(c *Check, pool *NodePool, w int, dir string, files map[string]string
 		cfg := cfg
 		gc, errText := c02BundleCase(dir, g, c02Cfg{cfg.name, cfg.format, api.PlatformNode, cfg.minify}, func(o *api.BuildOptions) {
 			o.TreeShaking = cfg.shake
+			if cfg.format != api.FormatESModule {
+				// the sources are ES modules (strict); esbuild documents that converting to cjs/iife does not add
+				// "use strict", so the harness supplies it to keep statements whose effect depends on strictness
+				// (assignment to a frozen object) comparable with native execution
+				o.Banner = map[string]string{"js": `"use strict";`}
+			}
 			if extra != nil {
 				extra(o)
 			}
@@ -266,34 +273,51 @@ func c04Run(c *Check, pool *NodePool, w int, dir string, files map[string]string
 		c.Sub("generator_invalid", 1)
 		return
 	}
-	nreq, nopt := c04StripOpt(native.Log)
 	c.Distinct(strings.Join(native.Log, "\n"))
-	for k := 1; k < len(res); k++ {
-		b := res[k]
+	cmp := func(native, b graphRes) string {
+		nreq, nopt := c04StripOpt(native.Log)
 		breq, bopt := c04StripOpt(b.Log)
-		bad := ""
 		if strings.Join(nreq, "\n") != strings.Join(breq, "\n") {
-			bad = "log"
+			return "log"
 		} else if (native.Err == nil) != (b.Err == nil) || (native.Err != nil && *native.Err != *b.Err) {
-			bad = "error"
+			return "error"
 		} else if normSurface(native.Surface) != normSurface(b.Surface) {
-			bad = "surface"
-		} else {
-			// optional (annotated) lines may vanish but never appear out of nothing
-			have := map[string]int{}
-			for _, x := range nopt {
-				have[x]++
-			}
-			for _, x := range bopt {
-				have[x]--
-				if have[x] < 0 {
-					bad = "extra-optional-line"
-				}
+			return "surface"
+		}
+		// optional (annotated) lines may vanish but never appear out of nothing
+		have := map[string]int{}
+		for _, x := range nopt {
+			have[x]++
+		}
+		for _, x := range bopt {
+			have[x]--
+			if have[x] < 0 {
+				return "extra-optional-line"
 			}
 		}
+		return ""
+	}
+	// known finding (differential): the bundle behaves exactly like the source without the unused
+	// `class C extends plain {}` statement, whose native evaluation throws TypeError
+	var withoutClass *graphRes
+	classRe := regexp.MustCompile(`(?m)^class C\d+ extends plain \{\}\n`)
+	for k := 1; k < len(res); k++ {
+		b := res[k]
+		bad := cmp(native, b)
 		key := "shake:" + names[k-1] + ":" + label
-		if bad == "log" && strings.Contains(label, "extends plain {}") && native.Err != nil && *native.Err == "TypeError" {
-			key = "unused-class-extending-a-non-constructor-is-removed"
+		if bad != "" && strings.Contains(label, "extends plain {}") && native.Err != nil && *native.Err == "TypeError" && classRe.MatchString(files["b.mjs"]) {
+			if withoutClass == nil {
+				f2 := map[string]string{}
+				for n, t := range files {
+					f2[n] = t
+				}
+				f2["b.mjs"] = classRe.ReplaceAllString(f2["b.mjs"], "")
+				r2 := nodeGraph(pool.Get(w), []graphCase{{Files: f2, Entry: "a.mjs", How: "import"}})
+				withoutClass = &r2[0]
+			}
+			if cmp(*withoutClass, b) == "" {
+				key = "unused-class-extending-a-non-constructor-is-removed"
+			}
 		}
 		if bad != "" {
 			c.Violation(key, map[string]interface{}{"kind": "tree-shaken bundle differs from native execution (" + bad + ")", "case": label, "config": names[k-1], "files": files, "native": native.String(), "bundle": b.String(), "bundle_code": trunc(cases[k].Files[cases[k].Entry], 6000)})
